@@ -19,6 +19,7 @@ Shared by props/c06.py (shortest distances) and props/c07.py (shortest paths).
 * the heap instrumentation: a counting subclass of tracklib's priority_dict installed over the
   name the routing code uses (in the harness process only); it calls the original methods.
 """
+import copy
 import itertools
 
 from mc import alpha
@@ -137,7 +138,7 @@ def by_object(variant):
     return variant in (2, 3)
 
 
-LATTICE = [(0.0, 0.0), (4.0, 0.0), (2.0, 3.0), (5.0, 4.0)]      # no three collinear
+LATTICE = [(0.0, 0.0), (4.0, 0.0), (2.0, 3.0), (5.0, 4.0), (-1.0, 5.0)]      # no three collinear
 MAX_EDGES = 3
 
 
@@ -177,6 +178,31 @@ _assert_unique_interiors()
 # ---------------------------------------------------------------------------
 _KEEP = ("id", "coord")
 _ABSENT = "<absent>"
+_NET_TABLES = frozenset(["DISTANCES", "EDGES", "NODES", "NBGR_EDGES", "NBGR_NODES", "NEXT_EDGES", "NEXT_NODES", "PREV_EDGES",
+                         "PREV_NODES", "_Network__idx_edges", "_Network__idx_nodes", "spatial_index"])
+_EDGE_FIELDS = frozenset(["geom", "id", "orientation", "source", "target", "weight"])
+_ATOMS = (int, float, str, bool, type(None))
+
+
+def _enc(v):
+    """Hashable, identity-free form of an arbitrary attribute value (nodes and edges by their id)."""
+    c = v.__class__
+    if c in _ATOMS:
+        return "nan" if c is float and v != v else v
+    if c is Node:
+        return ("node", v.id)
+    if c is Edge:
+        return ("edge", v.id)
+    if isinstance(v, (list, tuple)):
+        return (c.__name__,) + tuple(_enc(x) for x in v)
+    if isinstance(v, dict):
+        return ("dict",) + tuple(sorted(((_enc(k), _enc(x)) for k, x in v.items()), key=repr))
+    if isinstance(v, (set, frozenset)):
+        return ("set",) + tuple(sorted((_enc(x) for x in v), key=repr))
+    d = getattr(v, "__dict__", None)
+    if isinstance(d, dict):
+        return (c.__name__, _enc(d))
+    return ("repr", repr(v))
 
 
 class Graph(object):
@@ -203,6 +229,8 @@ class Graph(object):
             net.addEdge(e, self.nodes[s], self.nodes[t])
             self.geoms.append(g)
         self.net = net
+        self.edge_objs = list(net.EDGES.values())
+        self.edge_by_id = {e.id: e for e in self.edge_objs}
         self.topo0 = self.topology()
 
     # -- the complete mutable state under queries --------------------------------
@@ -227,7 +255,7 @@ class Graph(object):
                 D = tuple(sorted(D.items(), key=repr))
             except Exception:
                 D = repr(D)
-        return (tuple(out), D)
+        return (tuple(out), D, self._canon_extras())
 
     @staticmethod
     def _canon_slow(d):
@@ -235,23 +263,56 @@ class Graph(object):
         for k in sorted(d):
             if k in _KEEP:
                 continue
-            v = d[k]
-            if isinstance(v, Node):
-                v = ("node", v.id)
-            elif isinstance(v, float) and v != v:
-                v = "nan"
-            row.append((k, v))
+            row.append((k, _enc(d[k])))
         return tuple(row)
+
+    # Anything else a query may leave on the Network or on an Edge (an attribute this harness has never heard of: a cache,
+    # a work list, a flag) is part of the state too: it is hashed and copied generically.
+    def _extras(self):
+        out = [(k, v) for k, v in self.net.__dict__.items() if k not in _NET_TABLES]
+        for e in self.edge_objs:
+            if len(e.__dict__) != len(_EDGE_FIELDS):
+                out.extend((("edge", e.id, k), v) for k, v in e.__dict__.items() if k not in _EDGE_FIELDS)
+        return out
+
+    def _canon_extras(self):
+        return tuple(sorted(((repr(k), _enc(v)) for k, v in self._extras()), key=repr))
 
     def snapshot(self):
         D = self.net.DISTANCES
-        return ([dict(n.__dict__) for n in self.nodes], None if D is None else dict(D))
+        memo = {id(o): o for o in self.nodes + self.edge_objs}
+        ex = [(k, v if v.__class__ in _ATOMS else copy.deepcopy(v, dict(memo))) for k, v in self._extras()]
+        nd = []
+        for n in self.nodes:
+            d = dict(n.__dict__)
+            if len(d) > 6:                 # an attribute beyond id, coord and the four routing flags: copied in depth
+                for k, v in d.items():
+                    if k not in _KEEP and v.__class__ not in _ATOMS and v.__class__ is not Node:
+                        d[k] = copy.deepcopy(v, dict(memo))
+            nd.append(d)
+        return (nd, None if D is None else dict(D), ex)
 
     def restore(self, snap):
+        memo = {id(o): o for o in self.nodes + self.edge_objs}
         for n, d in zip(self.nodes, snap[0]):
             n.__dict__.clear()
             n.__dict__.update(d)
+            if len(d) > 6:
+                for k, v in d.items():
+                    if k not in _KEEP and v.__class__ not in _ATOMS and v.__class__ is not Node:
+                        n.__dict__[k] = copy.deepcopy(v, dict(memo))
         self.net.DISTANCES = None if snap[1] is None else dict(snap[1])
+        for k in [k for k in self.net.__dict__ if k not in _NET_TABLES]:
+            del self.net.__dict__[k]
+        for e in self.edge_objs:
+            for k in [k for k in e.__dict__ if k not in _EDGE_FIELDS]:
+                del e.__dict__[k]
+        for k, v in snap[2]:
+            v = v if v.__class__ in _ATOMS else copy.deepcopy(v, dict(memo))
+            if isinstance(k, tuple):
+                self.edge_by_id[k[1]].__dict__[k[2]] = v
+            else:
+                self.net.__dict__[k] = v
 
     def topology(self):
         net = self.net
@@ -409,11 +470,21 @@ def history_bfs(ctx, gid, mk, events, fire, judge, max_depth, hasher=hash):
     False prunes below the new state).  Returns (number of states, first depth at which the expansion produced
     no new state, or None when that did not happen within max_depth).
     """
+    try:
+        return _history_bfs(ctx, gid, mk, events, fire, judge, max_depth, hasher, False)
+    except ReplayDivergence:
+        # some state lives where snapshot()/restore() cannot reach it (outside the Network, its nodes and its edges):
+        # explore this network again, building every state by executing its whole history on a fresh network
+        ctx.count("networks_explored_by_full_history_replay")
+        return _history_bfs(ctx, gid, mk, events, fire, judge, max_depth, hasher, True)
+
+
+def _history_bfs(ctx, gid, mk, events, fire, judge, max_depth, hasher, from_scratch):
     g = mk()
     k0 = g.canon()
     seen = {k0}
     ctx.state(hasher((gid, k0)))
-    frontier = [((), k0, g.snapshot())]
+    frontier = [((), k0, None if from_scratch else g.snapshot())]
     depth = 0
     ne = len(events)
     while frontier and depth < max_depth:
@@ -421,16 +492,22 @@ def history_bfs(ctx, gid, mk, events, fire, judge, max_depth, hasher=hash):
         for si, (hist, k, snap) in enumerate(frontier):
             check_i = (si + depth) % ne
             for ei, ev in enumerate(events):
-                g.restore(snap)
+                if from_scratch:
+                    g, _ = run_history(mk, fire, hist)
+                else:
+                    g.restore(snap)
                 res = fire(g, ev)
                 ctx.transition()
                 keep = judge(hist, ev, res, g)
                 k2 = g.canon()
                 if ei == check_i:
-                    # the same history from scratch on a freshly built network: validates the in-place restore
+                    # the same history from scratch on a freshly built network: validates the in-place restore (or, when
+                    # every state is already built from scratch, that the history is deterministic)
                     g2, res2 = run_history(mk, fire, hist + (ev,))
                     ctx.trace()
                     if g2.canon() != k2 or obs_key(res2) != obs_key(res):
+                        if from_scratch:
+                            raise RuntimeError("history %r on %r is not deterministic" % (hist + (ev,), gid))
                         raise ReplayDivergence("history %r on %r does not replay to the state/observation reached "
                                                "in place" % (hist + (ev,), gid))
                 if k2 in seen:
@@ -438,7 +515,7 @@ def history_bfs(ctx, gid, mk, events, fire, judge, max_depth, hasher=hash):
                 seen.add(k2)
                 ctx.state(hasher((gid, k2)))
                 if keep:
-                    nxt.append((hist + (ev,), k2, g.snapshot()))
+                    nxt.append((hist + (ev,), k2, None if from_scratch else g.snapshot()))
         depth += 1
         frontier = nxt
     if g.topology() != g.topo0:
